@@ -26,6 +26,7 @@ RULE = (
     "snapshot), no symbol stranded without referent, still serializable. "
     "non-trivial = at least one sanitizer pass on a rewritten module; "
     "distinct = shape signature x number of fault points."
+    " 12% of the IRs hold a second module the rewrite is not about (twin with the same names, or unrelated): every facet of it (bytes, blocks, symbols, proxies, expressions, every aux table except the library's leafFunctions bookkeeping, its edges in ir.cfg) must be unchanged and it must still be closed, after apply() and after every injected fault."
     " Patches may carry real alignment directives; 40% of the modules have alignment entries on input blocks; zero-sized input blocks as in C01; in 40% every unknown return target is one shared proxy; 30% of the ELF modules designate DT_INIT/DT_FINI blocks, which must name the code where the block's first label is afterwards; 60% of the data lines of data patches are written as typed directives (.ascii: an encodings entry); 30% of the modules have types/encodings entries on input data blocks."
 )
 ASSUMPTIONS = [
@@ -198,6 +199,25 @@ def zero_block_context(case, r, block):
     return ""
 
 
+def bystander(r, viol, ctr, where):
+    """the module of the same IR that the rewrite is not about: unchanged
+    in every facet and still closed, whether apply() returned or raised"""
+    ch = rewrite.bystander_changes(r)
+    if ch is None:
+        return
+    ctr["bystander_modules_compared"] = ctr.get(
+        "bystander_modules_compared", 0) + 1
+    for f in ch:
+        viol.append({"key": "bystander-module-changed:" + (
+            "aux-table" if f.startswith("aux:") else f) + where,
+            "msg": f"facet {f} of the module the rewrite was not about "
+                   "differs from before the rewrite"})
+    for item in irsan.sanitize(r.bu.bystander, None, roundtrip=False,
+                               failure_path=True):
+        viol.append({"key": item[0] + ":bystander-module" + where,
+                     "msg": item[1]})
+
+
 def run_case(case):
     from gtirb_rewriting import rewriting as rw
     viol = []
@@ -241,6 +261,7 @@ def run_case(case):
     try:
         r = rewrite.run(case, before_apply=before)
         n = r.rec.callbacks
+        bystander(r, viol, ctr, "")
         if r.exception is not None:
             kind, key = oracles.classify_apply_exception(case, r.exception)
             if kind == "raised":
@@ -287,6 +308,7 @@ def run_case(case):
                         "msg": repr(fr.exception)[:300]})
                 m = fr.bu.module
                 ctr["failure_states_checked"] += 1
+                bystander(fr, viol, ctr, ":after-fault")
                 for item in irsan.sanitize(m, state["snap"],
                                            failure_path=True):
                     viol.append({"key": item[0] + ":after-fault",
